@@ -1,3 +1,4 @@
+import IpcModel.GenRouter
 /-! C17 (closed system): `RouterProxy` calls from several client threads, the proxy mutex, the crossbeam message queue,
 the wake-up channel with its `wakeup_pending` flag, the router thread and callbacks that re-enter `add_route` on the router
 thread — as a small-step system.  `step st a = none` means action `a` is not enabled (the thread is blocked).  The `Variant`
@@ -12,6 +13,8 @@ deriving Repr, DecidableEq
 
 def fixed : Variant := ⟨false⟩
 def legacy : Variant := ⟨true⟩
+/-- the variant the translator reads from `RouterProxy::shutdown` now: is the acknowledgement awaited inside the locked block? -/
+def codeVariant : Variant := ⟨Gen.vLockWhileWaiting⟩
 
 inductive RMsg | addRoute (r : Nat) | shutdown
 deriving Repr, DecidableEq
